@@ -566,6 +566,7 @@ def run(ctx):
     rules.append(sC14.rule_len(ctx, funcs))
     rules.append(sC14.rule_kv(ctx, funcs))
     rules.append(sC14.rule_iter(ctx))
-    # pending finding (FINDING_5 of session s4-G5): sC14.rule_tree(ctx, 'revstep', floor=6) -> C14-TREE-REVSTEP reports Optimize.IterationTransform:carray:reversed:step on the
+    rules.append(sC14.rule_tree(ctx, 'revstep', floor=3))     # armed after the repair 852bb60fe (steps other than +-1 are a compile error now, 3 decided scenarios)
+    # (FINDING_5 of session s4-G5): sC14.rule_tree(ctx, 'revstep') -> C14-TREE-REVSTEP reports Optimize.IterationTransform:carray:reversed:step on the
     #   unmodified tree: `for x in reversed(c_array[0:9:3])` (and every other reversed stepped C array slice, also step 1 / -1) runs zero iterations.
     return rules
